@@ -866,6 +866,11 @@ class ModelReader:
         except:
             if self.model:
                 self.model.close()
+            if self.iospecs:
+                # The specs that were read but not yet bound to a reference
+                # are unknown to the model: delete them with their ios
+                for spec in self.iospecs.values():
+                    self.system.iomanager.del_spec(spec)
             raise
 
         finally:
